@@ -29,6 +29,21 @@ fn val(g: &mut Gen, e: &str) -> String {
     if e == "fp" { fp_val(g) } else { rat_val(g) }
 }
 fn vals(g: &mut Gen, e: &str, n: usize) -> String {
+    // degenerate data now and then: all zero, all equal, mostly zero, two distinct values
+    if n > 0 && g.rng.chance(1, 10) {
+        let (a, b) = (val(g, e), val(g, e));
+        let mode = g.rng.below(4);
+        g.count(&format!("data.degenerate.mode{}", mode));
+        return (0..n)
+            .map(|_| match mode {
+                0 => "0".to_string(),
+                1 => a.clone(),
+                2 => if g.rng.chance(2, 3) { "0".to_string() } else { a.clone() },
+                _ => if g.rng.chance(1, 2) { a.clone() } else { b.clone() },
+            })
+            .collect::<Vec<_>>()
+            .join(",");
+    }
     if n == 0 { "-".into() } else { (0..n).map(|_| val(g, e)).collect::<Vec<_>>().join(",") }
 }
 
@@ -108,7 +123,7 @@ fn gen_cov_case(g: &mut Gen, e: &str, samples: usize, features: usize) {
     g.count(&format!("cov.samples={}", samples));
     g.count(&format!("cov.features={}", features));
     g.count(&format!("cov.ety={}", e));
-    let data: Vec<String> = (0..samples * features).map(|_| val(g, e)).collect();
+    let data: Vec<String> = split_comma(&vals(g, e, samples * features)).iter().map(|x| x.to_string()).collect();
     // samples x features (column features) and its transpose (row features)
     let flat = data.join(",");
     let mut tr = vec![];
@@ -128,7 +143,13 @@ fn gen_cov_case(g: &mut Gen, e: &str, samples: usize, features: usize) {
     g.op("covrow M via=fn".to_string());
     g.op("covcol MT via=method".to_string());
     // tensors: feature dimension second / first, same data
-    let (sn, fname) = if g.rng.chance(1, 4) { ("i", "j") } else if g.rng.chance(1, 3) { ("j", "i") } else { ("s", "f") };
+    // dimension names: the result's own names i / j, plain ones, or adversarial ones (names the
+    // library uses internally, substrings of one another, the empty name) - names are opaque
+    let adv = adversarial_names(&mut g.rng, 2);
+    let (sn, fname) = if g.rng.chance(1, 3) {
+        g.count("cov.names.adversarial");
+        (adv[0], adv[1])
+    } else if g.rng.chance(1, 4) { ("i", "j") } else if g.rng.chance(1, 3) { ("j", "i") } else { ("s", "f") };
     g.op(format!("t T {}:{},{}:{} {}", sn, samples, fname, features, flat));
     g.op(format!("t TT {}:{},{}:{} {}", fname, features, sn, samples, flat_t));
     for name in ["T", "TT"] {
